@@ -113,16 +113,33 @@ func Layouts(toks []string, which int) string {
 	return b.String()
 }
 
+// keywords whose letter case the layouts may change (function and type names are identifiers: their written
+// spelling is part of the tree)
+var keywords = map[string]bool{}
+
+func init() {
+	for _, k := range strings.Fields(`SELECT DISTINCT FROM WHERE GROUP BY HAVING ORDER ASC DESC NULLS FIRST LAST LIMIT OFFSET AS ON JOIN INNER LEFT RIGHT
+		FULL OUTER CROSS UNION ALL INTERSECT EXCEPT WITH RECURSIVE INSERT INTO VALUES UPDATE SET DELETE RETURNING AND OR NOT IS NULL IN BETWEEN
+		LIKE CASE WHEN THEN ELSE END EXISTS FOR OVER PARTITION USING MERGE MATCHED`) {
+		keywords[k] = true
+	}
+}
+
 func isKeyword(t string) bool {
-	if t == "" {
+	if keywords[t] {
+		return true
+	}
+	// compound spellings such as "LEFT JOIN"
+	ws := strings.Fields(t)
+	if len(ws) < 2 {
 		return false
 	}
-	for _, c := range t {
-		if c < 'A' || c > 'Z' {
+	for _, w := range ws {
+		if !keywords[w] {
 			return false
 		}
 	}
-	return len(t) > 1
+	return true
 }
 
 // Describe names the operator at the root of a model tree and of its non-atomic children (signature material).
@@ -164,4 +181,28 @@ func opName(t map[string]any) string {
 		return "CASE"
 	}
 	return ""
+}
+
+// FoldWords upper-cases the string values of the fields that hold operator words and type names, which the
+// properties compare "up to the letter case of keywords and operator words".
+func FoldWords(v any) any {
+	switch x := v.(type) {
+	case map[string]any:
+		out := make(map[string]any, len(x))
+		for k, c := range x {
+			if s, ok := c.(string); ok && (k == "Operator" || (k == "Type" && x["T"] == "CastExpression") || (k == "Type" && x["T"] == "JoinClause")) {
+				out[k] = strings.ToUpper(s)
+			} else {
+				out[k] = FoldWords(c)
+			}
+		}
+		return out
+	case []any:
+		out := make([]any, len(x))
+		for i, c := range x {
+			out[i] = FoldWords(c)
+		}
+		return out
+	}
+	return v
 }
